@@ -239,6 +239,8 @@ def ref_call(name, args):
         return None
     if name == 'split':
         if len(a) == 2 and isinstance(a[0], str) and isinstance(a[1], str):
+            if a[1] == '':
+                return ('l', ('',) + tuple(a[0]) + ('',))        # Regex::split with a pattern that matches the empty string
             return ('l', tuple(a[0].split(a[1])))
         return None
     if name == 'string':
@@ -385,7 +387,7 @@ AGG = ('sum', 'mean', 'median', 'stddev')
 
 # ------------------------------------------------------------------ the second model file (coq/C08/Model2.v)
 def literal(v):
-    return v.kind == 'str' and v.feel[1:-1].isalnum()
+    return v.kind == 'str' and (v.feel[1:-1].isalnum() or v.feel == '""')       # the empty pattern matches at every position
 
 
 def coq_ref_term(name, args):
@@ -660,10 +662,10 @@ def gen_cases(ctx):
         ms = {'', s, s[:1], s[-1:], s[1:3], s[:-1], 'X', 'zz', SUPP, 'b', 'ab', s + 'a'}
         for m in sorted(ms):
             for f in ('contains', 'starts with', 'ends with', 'substring before', 'substring after', 'matches', 'split'):
-                if f in ('matches', 'split') and (m == '' or not m.isalnum()):
+                if f in ('matches', 'split') and m != '' and not m.isalnum():
                     continue
                 add(f, st(s), st(m))
-            if m and m.isalnum():
+            if m == '' or m.isalnum():
                 add('replace', st(s), st(m), st('-'))
                 add('replace', st(s), st(m), st(''))
         add('string length', st(s))
@@ -973,5 +975,5 @@ def replay(ctx, path):
 
 MANIFEST = dict(
     technique='Coq proof (one Gallina function per built-in transliterating bifs/core.rs with the positional and named dispatch; characterisation theorems for all list / string lengths and positions; named = positional) with model/code correspondence on boundary-exhaustive argument tuples',
-    text='Theorems (coq/Props/C08.v, closed under the global context) characterise the modelled built-ins for lists and strings of any length and every position / length argument (substring, sublist, insert before, remove: window semantics from 1, negative positions from the end, null exactly outside the domain; index of, list contains, union, distinct values, flatten, reverse, append, concatenate, count, min, max, sum, mean, median, mode, all, any, not, string predicates, substring before / after, get value, get entries) and show that the named dispatch gives the positional result. The numeric aggregates compute in the model with the SHARED decimal128 layer coq/Base/DecRound.v (dadd / dsub / ddiv / dsqrt, the operations C02 proves correctly rounded; no private arithmetic, no assumption on the size of a sum): sum is the left-to-right fold of correctly rounded additions starting with the first item, null once a step overflows (C08_sum_is_rounded_fold, C08_add_correctly_rounded: null exactly at the decimal128 overflow threshold, otherwise within half a unit of the 34-digit quantum, ties to even, exact when the sum fits); mean is the correctly rounded quotient of the rounded sum from 0 by the count (C08_mean_correctly_rounded); median is the middle item of the stable number sort or the correctly rounded half of the correctly rounded sum of the two middle items (C08_median_spec, C08_median_order_statistic); stddev is the exact sequence of rounded operations of core.rs (C08_stddev_spec: sum from 0, / n, squared deviations added from 0, / (n - 1), sqrt; the square is FeelNumber::square = decNumberPower(x, 2), which rounds twice, 37 then 34 digits: C08_square_two_roundings, C08_square_is_not_the_rounded_product); every aggregate of numbers in format is null or a number in format (C08_aggregates_in_format). mode is exact (C08_mode, C08_mode_is_determined); the number sort of median / mode is the stable ascending sort (C08_number_sort_stable); sort(list, precedes) is a permutation for every relation and, when precedes is a strict weak order on the items, sorted, stable, and the only such list (C08_sort_by_precedes, C08_sort_is_determined); split / replace / matches on literal patterns: join(split(s, d), d) = s, no piece contains d, replace = split then join with the replacement, a pattern that does not occur changes nothing, the recursive equations (C08_split_join ... C08_replace_equation). Tied to feel-evaluator/src/bifs by issuing every generated call positionally and with named parameters through parse + evaluate and comparing with the model (sort: including the order of tied items 1 / 1.0; numeric aggregates: also lists whose sums round at every step, ties, overflow, underflow, tiny + huge, compared with the Coq model and with libmpdec); string and number are validated against references, not proved.',
+    text='Theorems (coq/Props/C08.v, closed under the global context) characterise the modelled built-ins for lists and strings of any length and every position / length argument (substring, sublist, insert before, remove: window semantics from 1, negative positions from the end, any numeric position that denotes an integer whatever its exponent, null exactly outside the domain; flatten and distinct values / union by equations whose only solution is the function: leaves left to right, first occurrences in list order under FEEL equality (C08_flatten_is_determined, C08_distinct_values_is_determined); index of, list contains, union, distinct values, flatten, reverse, append, concatenate, count, min, max, sum, mean, median, mode, all, any, not, string predicates, substring before / after, get value, get entries) and show that the named dispatch gives the positional result. The numeric aggregates compute in the model with the SHARED decimal128 layer coq/Base/DecRound.v (dadd / dsub / ddiv / dsqrt, the operations C02 proves correctly rounded; no private arithmetic, no assumption on the size of a sum): sum is the left-to-right fold of correctly rounded additions starting with the first item, null once a step overflows (C08_sum_is_rounded_fold, C08_add_correctly_rounded: null exactly at the decimal128 overflow threshold, otherwise within half a unit of the 34-digit quantum, ties to even, exact when the sum fits); mean is the correctly rounded quotient of the rounded sum from 0 by the count (C08_mean_correctly_rounded); median is the middle item of the stable number sort or the correctly rounded half of the correctly rounded sum of the two middle items (C08_median_spec, C08_median_order_statistic); stddev is the exact sequence of rounded operations of core.rs (C08_stddev_spec: sum from 0, / n, squared deviations added from 0, / (n - 1), sqrt; the square is FeelNumber::square = decNumberPower(x, 2), which rounds twice, 37 then 34 digits: C08_square_two_roundings, C08_square_is_not_the_rounded_product); every aggregate of numbers in format is null or a number in format (C08_aggregates_in_format). mode is exact (C08_mode, C08_mode_is_determined); the number sort of median / mode is the stable ascending sort (C08_number_sort_stable); sort(list, precedes) is a permutation for every relation and, when precedes is a strict weak order on the items, sorted, stable, and the only such list (C08_sort_by_precedes, C08_sort_is_determined); split / replace / matches on literal patterns: join(split(s, d), d) = s, no piece contains d, replace = split then join with the replacement, a pattern that does not occur changes nothing, the recursive equations (C08_split_join ... C08_replace_equation), the empty pattern matches at every position as Regex::split does (C08_split_empty_delimiter). Tied to feel-evaluator/src/bifs by issuing every generated call positionally and with named parameters through parse + evaluate and comparing with the model (sort: including the order of tied items 1 / 1.0; numeric aggregates: also lists whose sums round at every step, ties, overflow, underflow, tiny + huge, compared with the Coq model and with libmpdec); string and number are validated against references, not proved.',
     note='Trusted: Coq kernel + vm_compute, hand-written model of bifs/core.rs, positional.rs, named.rs (correspondence-checked), Python references for string / number, harness. Regex dialect beyond literal patterns and number-to-text conversion (C07) are outside the theorems; the decNumber kernel is tied to Base/DecRound.v by correspondence (C02 and the aggregate / square cases here); numeric aggregate calls whose digits span more than 400 positions are compared with libmpdec only (digit counting in Coq is too slow there).')
